@@ -1,6 +1,6 @@
 SPECIFICATION Spec
 CONSTANTS
-  MaxDepth = 2
+  MaxDepth = 3
   MaxActs = 5
 INVARIANT StackShape
 PROPERTY ReturnLaw
